@@ -541,7 +541,7 @@ def kvalue(rng, k, big=False, nonzero=False):
         v = Fraction(rng.randint(-9, 12), rng.randint(1, 6))
         return Fraction(2, 3) if (nonzero and v == 0) else v
     if k == "c64":
-        return (float(rng.randint(-6, 9)), float(rng.randint(-6, 9)))
+        return (float(rng.randint(0, 9)), float(rng.randint(-6, 9)))      # `-2+3i` is parsed as -(2+3i): no negative real part
     if k == "bool":
         return rng.random() < 0.5
     if k == "string":
@@ -664,7 +664,9 @@ class KHist(Hist):
             # an annotation the right-hand side cannot be converted to: the definition has no value and must fail
             forms = ['%s<[%s]:1,3> := [1 2]' % (x, k), '%s<[%s]:2,2> := [1 2 3]' % (x, k), '%s<[%s]:3> := [1 2 3]' % (x, k)]
             if k in ms.INT_KINDS or k in ("f32", "f64"):
-                forms += ['%s<%s> := "s"' % (x, k), '%s<%s> := true' % (x, k), '%s<%s> := [1 2]' % (x, k), '%s<%s> := 1/2' % (x, k)]
+                forms += ['%s<%s> := "s"' % (x, k), '%s<%s> := true' % (x, k), '%s<%s> := [1 2]' % (x, k)]
+            if k in ms.INT_KINDS or k == "f32":
+                forms += ['%s<%s> := 1/2' % (x, k)]
             if k == "bool":
                 forms += ['%s<bool> := 5' % x, '%s<bool> := "s"' % x]
             if k == "c64":
@@ -723,7 +725,7 @@ class KHist(Hist):
 
     def k_source(self, t, **kw):
         """a right-hand side of the type t: a literal or a variable holding such a value"""
-        y = self.pick(lambda e: e["type"].tag == t.tag and e["type"].k == t.k and (t.tag == "s" or (e["type"].r, e["type"].c) == (t.r, t.c)))
+        y = self.pick(lambda e: not e.get("poison") and e["type"].tag == t.tag and e["type"].k == t.k and (t.tag == "s" or (e["type"].r, e["type"].c) == (t.r, t.c)))
         if y is not None and self.rng.random() < 0.3:
             return y, ["var", q(y)]
         e = self.same(t, **kw)
@@ -766,6 +768,8 @@ class KHist(Hist):
             return False
         e = self.k_source(self.env[x]["type"])
         self.emit("asg", "%s = %s" % (x, e[0]), ["asg", q(x), e[1]], False)
+        if self.env[x]["type"].k != "i128":
+            self.env[x].pop("poison", None)
         return True
 
     def k_index(self, invalid):
@@ -824,7 +828,7 @@ class KHist(Hist):
                 e = self.k_mismatch(self.env[x]["type"])
             self.emit("op", "%s %s %s" % (x, OPS[op], e[0]), ["op", q(x), op, e[1]], True)
             return True
-        x = self.k_target(lambda t: t.tag in ("s", "m"))
+        x = self.pick(lambda e: e["mut"] and e["type"].tag in ("s", "m") and not e.get("poison"))
         if x is None:
             return False
         t = self.env[x]["type"]
@@ -849,9 +853,11 @@ class KHist(Hist):
             if op == "div":
                 op = "mul"
             e = self.k_source(t if rng.random() < 0.5 else KT("s", k))
-        elif op == "div":
+        elif op == "div" and (k in ms.INT_KINDS or k == "r64"):
             # integers and rationals: a zero divisor now and then (panics; in a matrix after some elements were stored)
             zero = rng.random() < 0.3
+            if zero and k == "r64":
+                self.env[x]["poison"] = True                    # it will hold n/0: no arithmetic on it until it is assigned again
             tt = t if rng.random() < 0.6 else KT("s", k)
             if tt.tag == "s":
                 v = 0 if zero else kvalue(rng, k, nonzero=True)
@@ -862,6 +868,8 @@ class KHist(Hist):
                 if zero:
                     d[rng.randrange(len(d))] = Fraction(0) if k == "r64" else 0
                 e = (kmat_src(rng, k, tt.r, tt.c, d), kmat_sx(k, tt.r, tt.c, d))
+        elif op == "div":
+            e = self.same(t if rng.random() < 0.5 else KT("s", k))[:2]
         else:
             e = self.k_source(t if rng.random() < 0.5 else KT("s", k), big=big)
         self.emit("op", "%s %s %s" % (x, OPS[op], e[0]), ["op", q(x), op, e[1]], False)
@@ -940,13 +948,17 @@ class KHist(Hist):
                 cols = [(f, self.kind()) for f in FIELDS[:ncol]]
                 if any(k == "c64" for _, k in cols):
                     return False
-                data = {f: [kvalue(rng, k) for _ in range(rows)] for f, k in cols}
+                # (a table cell written 2.5 under an r64 column is stored as 2: conversions are not C05's business)
+                data = {f: [(Fraction(rng.randint(-9, 12)) if k == "r64" else kvalue(rng, k)) for _ in range(rows)] for f, k in cols}
                 if any(plain(k, v) is None for f, k in cols for v in data[f]):
                     return False
                 src = "| " + " ".join("%s<%s>" % (f, k) for f, k in cols) + " | " + " | ".join(
                     " ".join(plain(k, data[f][i]) for f, k in cols) for i in range(rows)) + " |"
-                val = ["table", rows] + [[q(f), q(k), [["s", k, ms.payload(k, v)] for v in data[f]]] for f, k in cols]
-                self.emit("def", "%s%s := %s" % (pre, x, src), ["def", int(mu), q(x), ["opq", val]], False)
+                if all(k == "f64" for _, k in cols):
+                    ex = ["tab", [[q(f), [nsx(v) for v in data[f]]] for f, k in cols]]
+                else:
+                    ex = ["opq", ["table", rows] + [[q(f), q(k), [["s", k, ms.payload(k, v)] for v in data[f]]] for f, k in cols]]
+                self.emit("def", "%s%s := %s" % (pre, x, src), ["def", int(mu), q(x), ex], False)
                 self.env[x] = dict(type=KT("tab", elems=dict(cols=cols, rows=rows)), mut=mu)
             else:
                 k = self.kind()
@@ -958,8 +970,11 @@ class KHist(Hist):
                     if v not in vals:
                         vals.append(v)
                 src = "{" + ", ".join(klit(rng, k, v) for v in vals) + "}"
-                val = ["set", q(k), len(vals), [["s", k, ms.payload(k, v)] for v in vals]]
-                self.emit("def", "%s%s := %s" % (pre, x, src), ["def", int(mu), q(x), ["opq", val]], False)
+                if k == "f64":
+                    ex = ["set", [nsx(v) for v in vals]]
+                else:
+                    ex = ["opq", ["set", q(k), len(vals), [["s", k, ms.payload(k, v)] for v in vals]]]
+                self.emit("def", "%s%s := %s" % (pre, x, src), ["def", int(mu), q(x), ex], False)
                 self.env[x] = dict(type=KT("set", k), mut=mu)
             return True
         t = self.env[tb]["type"].elems
